@@ -130,7 +130,7 @@ class AnnotationCollection(AbstractFeatureIntervalCollection):
 
             # if we have children, and the above did not work, then use the children
             # cannot infer a range for an empty collection
-            if start is None and not self.is_empty:
+            if start is None and (not self.is_empty or self.variant_collections):
                 start = min(f.start for f in self.iter_children())
                 end = max(f.end for f in self.iter_children())
 
